@@ -89,6 +89,29 @@ SCOPES = {
         ops=["alter", "delete", "create", "createsf", "flatten", "verifypl"],
         maxgens=3, maxops=7, keepsnap=False,
     ),
+    # the same, reduced so that every behaviour of up to five operations can be exported (alter between generations: failed records)
+    "flatx": dict(
+        fmts=["md5", "sha1"], files=[P("a"), P("d", "b")], dirs=[P("d")],
+        init={P("a"): "c1", P("d"): "DIR", P("d", "b"): "c2"}, contents=["c1", "c2"],
+        roots=[P()], fmtchoices=[["md5"], ["sha1"]], pats=[()], sf=[],
+        ops=["alter", "create", "flatten", "verifypl"], maxgens=3, maxops=5, keepsnap=False,
+    ),
+    # flatten of a history that carries an ignore pattern: the packing list inherits it, verify -pl does not report the ignored file
+    "flatign": dict(
+        fmts=["md5"], files=[P("a"), P("x"), P("d", "x")], dirs=[P("d")],
+        init={P("a"): "c1", P("x"): "c1", P("d"): "DIR", P("d", "x"): "c2"}, contents=["c1", "c2"],
+        roots=[P()], fmtchoices=[["md5"]], pats=[(), ("n:x",)], sf=[],
+        ops=["alter", "create", "flatten", "verifypl"], maxgens=2, maxops=5, keepsnap=False, mutable=[P("a"), P("x")],
+        patnames={"n:x": ["x"]},
+    ),
+    # two sibling histories two levels below the top (the order of the references must not depend on the enumeration order)
+    "sib2": dict(
+        fmts=["md5"], files=[P("a"), P("d", "e", "c"), P("d", "g", "h")], dirs=[P("d"), P("d", "e"), P("d", "g")],
+        init={P("a"): "c1", P("d"): "DIR", P("d", "e"): "DIR", P("d", "e", "c"): "c1", P("d", "g"): "DIR", P("d", "g", "h"): "c2"},
+        contents=["c1", "c2"], roots=[P(), P("d", "e"), P("d", "g")], fmtchoices=[["md5"]], pats=[()], sf=[],
+        ops=["alter", "create", "verify"], maxgens=6, maxops=5, keepsnap=False, mutable=[P("a")],
+        init_creates=[P("d", "g"), P("d", "e")],
+    ),
     # info / info -sf over nested histories
     "inf": dict(
         fmts=["md5", "sha1"], files=[P("a"), P("d", "b"), P("d", "e", "c")], dirs=[P("d"), P("d", "e"), P("d2")],
@@ -136,7 +159,7 @@ SCOPES = {
     "tiny": dict(
         fmts=["md5"], files=[P("a")], dirs=[P("e")], init={P("a"): "c1", P("e"): "DIR"}, contents=["c1", "c2"],
         roots=[P()], fmtchoices=[["md5"]], pats=[()], sf=[],
-        ops=["alter", "delete", "mkdir", "create", "verify", "diff", "verifysf"], maxgens=2, maxops=5, keepsnap=False,
+        ops=["alter", "delete", "mkdir", "create", "verify", "diff", "verifysf", "nodh"], maxgens=2, maxops=5, keepsnap=False,
     ),
     # nested histories sealed with several formats at once (the child's root hash copied into the parent, per format)
     "nest2f": dict(
